@@ -126,6 +126,20 @@ CLAIMED["C15"] = (
     "identity scalars.",
     "DESIGN.md 3/C15",
 )
+CLAIMED["C18"] = (
+    "per generated schema: exhaustive enumeration of all 2^7 introspection option sets against a projection "
+    "oracle (R8), shape checker written from the specification, __type lookups for every type name, "
+    "includeDeprecated both ways, and the client-schema round trip",
+    "For each generated schema and each of the 128 option combinations the introspection query validates, "
+    "introspection_from_schema(s, **options) succeeds, the result has the shape the introspection types "
+    "prescribe and equals the full-options result minus exactly what the switched-off options omit; single-type "
+    "lookups equal the entries of the type list (unknown names give null); includeDeprecated filters agree with "
+    "isDeprecated; build_client_schema(full) prints identically, shows no schema changes either way and "
+    "introspects to the same result.",
+    "The projection R8 and the shape checker are my reading of the option semantics / specification; wrapper "
+    "depth <= 4.",
+    "DESIGN.md 3/C18",
+)
 PENDING_REASON = (
     "check under construction in this session (DESIGN.md section 3 has its design); it is not claimed "
     "until it has run quietly on the unchanged tree at several seeds"
